@@ -10,30 +10,34 @@ from harness import remap_engine as R
 PLANS = {
     "quick": {
         "C01": [("valid", "valid", 2, 2, 0, 9000), ("perturbed", "perturb", 1, 2, 1, 7000), ("valid-sim", "valid", 4, 2, 0, 300, "plain", [(100, 1)]),
-                ("valid-cli", "valid", 2, 2, 0, 1200), ("perturbed-cli", "perturb", 1, 2, 1, 600), ("valid-hap-cli", "valid", 2, 2, 0, 800, "hap")],
+                ("valid-cli-sim", "valid", 2, 2, 0, 1200), ("perturbed-cli-sim", "perturb", 1, 2, 1, 600), ("valid-hap-cli-sim", "valid", 2, 2, 0, 800, "hap"),
+                ("tagged-hap3-cli-sim", "tagged", 3, 0, 0, 1500, "hap3"), ("tagperturb-hap-cli-sim", "tagperturb", 2, 0, 1, 1000, "hap")],
         "C02": [("valid", "valid", 2, 3, 0, 10000), ("valid-sim", "valid", 5, 3, 0, 2500), ("valid-sim", "valid", 4, 2, 0, 300, "plain", [(100, 1)]),
-                ("valid-cli", "valid", 2, 3, 0, 1200)],
+                ("valid-cli-sim", "valid", 2, 3, 0, 1200)],
         "C07": [("valid", "valid", 2, 3, 0, 12000), ("perturbed", "perturb", 1, 1, 1, 3000), ("valid-sim", "valid", 4, 2, 0, 300, "plain", [(100, 1)]),
-                ("valid-cli", "valid", 2, 3, 0, 1200)],
+                ("valid-cli-sim", "valid", 2, 3, 0, 1200), ("tagged-hap3-cli-sim", "tagged", 3, 0, 0, 1500, "hap3")],
         "C08": [("null", "null", 0, 400, 0, None)],
-        "C11": [("valid", "valid", 2, 3, 0, 12000), ("valid-sim", "valid", 4, 2, 0, 300, "plain", [(100, 1)]), ("valid-cli", "valid", 2, 3, 0, 2000),
-                ("valid-hap-cli", "valid", 2, 2, 0, 1500, "hap"), ("tagged-hap-cli", "tagged", 3, 0, 0, 1500, "hap")],
-        "C09": [("tagged", "tagged", 3, 0, 0, 7000, "plain"), ("tagged-hap", "tagged", 3, 0, 0, 7000, "hap"), ("tagged-cli", "tagged", 3, 0, 0, 2000, "plain"),
-                ("tagged-hap-cli", "tagged", 3, 0, 0, 2500, "hap")],
+        "C11": [("valid", "valid", 2, 3, 0, 12000), ("valid-sim", "valid", 4, 2, 0, 300, "plain", [(100, 1)]), ("valid-cli-sim", "valid", 2, 3, 0, 2000),
+                ("valid-hap-cli-sim", "valid", 2, 2, 0, 1500, "hap"), ("tagged-hap-cli-sim", "tagged", 3, 3, 0, 2000, "hap"), ("tagged-hap3-cli-sim", "tagged", 3, 2, 0, 1500, "hap3"),
+                ("tagperturb-hap-cli-sim", "tagperturb", 2, 1, 1, 1500, "hap")],
+        "C09": [("tagged-sim", "tagged", 3, 0, 0, 6000, "plain"), ("tagged-hap-sim", "tagged", 3, 0, 0, 6000, "hap"), ("tagged-hap3-sim", "tagged", 3, 0, 0, 3000, "hap3"),
+                ("tagged-cli-sim", "tagged", 3, 0, 0, 1500, "plain"), ("tagged-hap-cli-sim", "tagged", 3, 0, 0, 2000, "hap"), ("tagged-hap3-cli-sim", "tagged", 3, 0, 0, 2000, "hap3")],
     },
     "thorough": {
         "C01": [("valid", "valid", 2, 8, 0, 25000), ("perturbed", "perturb", 1, 4, 2, 12000), ("valid-sim", "valid", 5, 4, 0, 8000),
                 ("valid-sim", "valid", 4, 3, 0, 2400, "plain", [(100, 1)]), ("valid-cli", "valid", 2, 6, 0, 6000), ("perturbed-cli", "perturb", 1, 3, 1, 3000),
-                ("valid-hap-cli", "valid", 2, 4, 0, 4000, "hap")],
+                ("valid-hap-cli", "valid", 2, 4, 0, 4000, "hap"), ("tagged-hap3-cli", "tagged", 3, 0, 0, 5000, "hap3"), ("tagperturb-hap-cli-sim", "tagperturb", 3, 1, 1, 5000, "hap")],
         "C02": [("valid", "valid", 2, 10, 0, 30000), ("valid-sim", "valid", 5, 4, 0, 12000), ("valid-sim", "valid", 4, 3, 0, 2400, "plain", [(100, 1)]),
                 ("valid-cli", "valid", 2, 6, 0, 6000)],
         "C07": [("valid", "valid", 2, 10, 0, 30000), ("perturbed", "perturb", 1, 2, 1, 8000), ("valid-sim", "valid", 4, 3, 0, 2400, "plain", [(100, 1)]),
-                ("valid-cli", "valid", 2, 6, 0, 6000)],
+                ("valid-cli", "valid", 2, 6, 0, 6000), ("tagged-hap3-cli", "tagged", 3, 0, 0, 5000, "hap3")],
         "C08": [("null", "null", 0, 3000, 0, None)],
         "C11": [("valid", "valid", 2, 10, 0, 30000), ("valid-sim", "valid", 5, 4, 0, 10000), ("valid-sim", "valid", 4, 3, 0, 2400, "plain", [(100, 1)]),
-                ("valid-cli", "valid", 2, 6, 0, 8000), ("valid-hap-cli", "valid", 2, 4, 0, 6000, "hap"), ("tagged-hap-cli", "tagged", 3, 1, 0, 6000, "hap")],
+                ("valid-cli", "valid", 2, 6, 0, 8000), ("valid-hap-cli", "valid", 2, 4, 0, 6000, "hap"), ("tagged-hap-cli-sim", "tagged", 3, 3, 0, 8000, "hap"), ("tagged-hap3-cli", "tagged", 3, 0, 0, 5000, "hap3"),
+                ("tagperturb-hap-cli-sim", "tagperturb", 3, 1, 1, 5000, "hap")],
         "C09": [("tagged", "tagged", 3, 2, 0, 20000, "plain"), ("tagged-hap", "tagged", 3, 2, 0, 20000, "hap"), ("tagged4", "tagged", 4, 0, 0, 12000, "hap"),
-                ("tagged-cli", "tagged", 3, 1, 0, 8000, "plain"), ("tagged-hap-cli", "tagged", 3, 1, 0, 8000, "hap")],
+                ("tagged-hap3", "tagged", 3, 0, 0, 12000, "hap3"),
+                ("tagged-cli", "tagged", 3, 1, 0, 8000, "plain"), ("tagged-hap-cli", "tagged", 3, 1, 0, 8000, "hap"), ("tagged-hap3-cli", "tagged", 3, 0, 0, 8000, "hap3")],
     },
 }
 TEXT = {
@@ -69,15 +73,16 @@ def main_for(pid, tier, replay=None):
     for plan in PLANS[tier][pid]:
         (label, mode, maxedits, nrandom, maxperturb, cap), style = plan[:6], (plan[6] if len(plan) > 6 else "plain")
         for tn, td in (plan[7] if len(plan) > 7 else R.TEXELS[tier]):
-            keep = (lambda o: o["valid"] == 0) if mode == "perturb" else None
-            sim = f"num={max(50, cap // 80)}" if label == "valid-sim" else None     # random edit scripts of up to maxedits gestures (TLC simulation mode)
+            keep = (lambda o: o["valid"] == 0) if mode in ("perturb", "tagperturb") else None
+            # "-sim" classes: random edit scripts of up to maxedits gestures (TLC simulation mode, seeded) instead of the exhaustive state graph
+            sim = (f"num={max(50, cap // 80)}" if label == "valid-sim" else f"num={max(50, cap // 20)}") if label.endswith("-sim") else None
             objs, r = R.export(run, f"pv-{label}-{tn}-{td}", tn, td, mode, maxedits, nrandom, maxperturb, cap=cap, rng=rng, keep=keep, style=style,
                                simulate=sim, workers=(1 if sim else 8))
             if cap and len(objs) == cap:
                 sampled = True
             for o in objs:
-                o["cls"] = label if label != "valid-sim" else "valid"
-                if label.endswith("-cli"):
+                o["cls"] = label[:-4] if label.endswith("-sim") else label
+                if "-cli" in label:
                     o["route"] = "cli"
                     o["root"] = str(run.sub("cli"))
             scen += objs
